@@ -4,6 +4,7 @@ import Hoot.Oracle.Heads
 import Hoot.Oracle.Expect
 import Hoot.Oracle.ReqHead
 import Hoot.Oracle.FlowO
+import Hoot.Oracle.Redirect
 
 /-! Dispatch of the per-property oracles. -/
 
@@ -31,4 +32,7 @@ def oracleFor (pid : String) (c : TCase) : Verdict :=
   | "C09" => oracleC09 c
   | "C10" => oracleC10 c
   | "C12" => oracleC12 c
+  | "C13" => oracleRedirect "C13" c
+  | "C14" => oracleRedirect "C14" c
+  | "C15" => oracleRedirect "C15" c
   | _ => noPanic c
